@@ -980,5 +980,11 @@ def nonfinite(ctx):
     return res
 
 
-RULES = [snell_law, reflect_law, align_normal, on_surface, normal_gradient,
+def no_stale(ctx):
+    from .common import stale_cache
+    return stale_cache(ctx, 'NO-STALE-STATE', ['Plane', 'StandardGeometry', 'NewtonRaphsonGeometry', 'EvenAsphere', 'PolynomialGeometry', 'ChebyshevPolynomialGeometry', 'CoordinateSystem'],
+                       'the intersection / normal no longer belongs to the current prescription', min_methods=10)
+
+
+RULES = [no_stale, snell_law, reflect_law, align_normal, on_surface, normal_gradient,
          frames, trace_order, same_medium, nonfinite]
